@@ -1,11 +1,39 @@
-//! Correspondence harness of property C20 (stub).
+//! Correspondence harness of property C20 (recursion and aggregation).
+//!
+//! Part 1 (`ipa.rs`): the inner-product argument of the light aggregator.
 use mzkh::Ctx;
-#[allow(unused_imports)]
-use midnight_aggregator::verif_hooks::{ipa_prove, ipa_verify, ipa_log_start, ipa_log_take};
-#[allow(unused_imports)]
-use midnight_circuits::verifier::verif_hooks::{transcript_log_start, transcript_log_take, TranscriptEvent};
+
+mod ipa;
+
+fn run_ipa(ctx: &mut Ctx) {
+    let mut rng = ctx.rng("ipa");
+    let (sizes, reps, sweep): (Vec<usize>, usize, usize) = match ctx.tier.as_str() {
+        "quick" => (vec![1, 2, 4, 8, 16, 32, 64], 1, 8),
+        "thorough" => (vec![1, 2, 4, 8, 16, 32, 64, 128, 256, 512, 1024], 3, 16),
+        _ => (vec![1, 2, 4, 8, 16, 32, 64], 2, 64),
+    };
+    for rep in 0..reps {
+        for &n in &sizes {
+            for class in ipa::CLASSES {
+                if n > 128 && rep > 0 {
+                    continue;
+                }
+                ipa::run_case(ctx, &mut rng, n, class, None, sweep);
+            }
+        }
+    }
+    // scripted challenges (special values), small sizes
+    for &n in sizes.iter().filter(|n| **n <= 32) {
+        let k = n.trailing_zeros() as usize;
+        for variant in 0..(if ctx.quick() { 3 } else { 9 }) {
+            let script = ipa::special_challenges(&mut rng, k, variant);
+            ipa::run_case(ctx, &mut rng, n, ipa::Class::Random, Some(script), sweep);
+        }
+    }
+}
 
 fn main() {
-    let ctx = Ctx::from_args("C20");
+    let mut ctx = Ctx::from_args("C20");
+    run_ipa(&mut ctx);
     ctx.finish();
 }
